@@ -334,7 +334,8 @@ def chain_direct_sum_rule(chk, src):
         class Me(Sym):
             def __getitem__(self, i):
                 return (A if self._name == "self" else B)[i]
-        me = Me("self", qntot="qt", site_num=N, dtype="dt", is_complex=False, is_mps=form == "mps", is_mpo=form == "mpo", is_mpdm=False, compress_config="cc", metacopy=lambda: new)
+        me = Me("self", qntot="qt", site_num=N, dtype="dt", is_complex=False, is_mps=form == "mps", is_mpo=form == "mpo", is_mpdm=False, compress_config="cc", metacopy=lambda: new,
+                qn=[Sym(f"labels-of-self-at-its-own-centre{b}", shape=("n", "q")) for b in range(N + 1)], qnidx="self.qnidx", to_right="self.to_right")
         other = Me("other", qntot="qt", site_num=N, dtype="dt", qnidx="other.qnidx", to_right="other.to_right", qn=[Sym(f"otherqn{b}") for b in range(N + 1)])
         class Cat(Sym):
             def __init__(self, parts):
